@@ -784,10 +784,19 @@ func c01Remainder(c *Ctx, p *Prog) {
 		if !instrDominates(next, s.Instr) {
 			continue
 		}
-		sl := p.Slice(s.Val, SliceOpt{NoMem: true})
-		for v := range sl.Seen {
-			if isBufLenOf(p, v, tO4Conn, "receiveBuffer") {
-				okSet = true
+		// the flag is exactly "bytes are left": receiveBuffer.Len() > 0 (or != 0), nothing else
+		if bo, isB := unspill(s.Val).(*ssa.BinOp); isB {
+			x, y, op := bo.X, bo.Y, bo.Op
+			if k, isK := intConst(x); isK && k == 0 { // 0 < Len()
+				x, y = y, x
+				if op == token.LSS {
+					op = token.GTR
+				}
+			}
+			if k, isK := intConst(y); isK && k == 0 && (op == token.GTR || op == token.NEQ) && isBufLenOf(p, x, tO4Conn, "receiveBuffer") {
+				if lc, _ := callOf(unspill(x)); lc != nil && instrDominates(next, lc) {
+					okSet = true
+				}
 			}
 		}
 		// the store must be on the success path
@@ -801,29 +810,30 @@ func c01Remainder(c *Ctx, p *Prog) {
 		ob.Violate("the flag %s.%s guarding the Read is not set by clientHandshake from receiveBuffer.Len() after Next(n)", flag.Type, flag.Field)
 		return
 	}
-	// consumed in readPackets: cleared on the skipping arm
-	okClr := false
+	// consumed in readPackets: whenever the blocking read is skipped the flag is false again when
+	// readPackets returns (otherwise the connection never reads from the network again): no path
+	// from the entry to a return avoids both the read and a store of false
+	avoid := map[ssa.Instruction]bool{rd: true}
+	nclr := 0
 	for _, s := range p.Stores(flag.Type, flag.Field) {
 		if s.Fn == rp {
 			if k, ok := s.Val.(*ssa.Const); ok && k.Value != nil && k.Value.String() == "false" {
-				if hasFact(rff.NC(s.Instr.Block()), func(f Fact) bool { k2, _, ok := fieldLoad(f.Cond); return ok && k2 == flag && f.Pol }) {
-					okClr = true
-				}
-				// or cleared unconditionally: the store lies on every path to every return
-				all := true
-				for _, r := range returnsOf(rp) {
-					if r.Block().Comment != "recover" && !instrDominates(s.Instr, r) {
-						all = false
-					}
-				}
-				if all {
-					okClr = true
-				}
+				avoid[s.Instr] = true
+				nclr++
 			}
 		}
 	}
+	okClr := nclr > 0
+	for _, r := range returnsOf(rp) {
+		if r.Block().Comment == "recover" {
+			continue
+		}
+		if canReachFeasible(rp.Blocks[0], nil, r, avoid) {
+			okClr = false
+		}
+	}
 	if !okClr {
-		ob.Violate("the pending flag is not cleared when the read is skipped: the connection would never read from the network again")
+		ob.Violate("the pending flag is not cleared on every path that skips the read: the connection would never read from the network again")
 		return
 	}
 	// the decode loop is reached on both arms
